@@ -47,7 +47,7 @@ ASSUMPTIONS = [
 REQUIRED = {"histories": 16, "snapshots": 40, "lines.decoded": 1000, "fixpoint.compared": 40, "idempotence.compared": 40, "expired.checked": 200, "port.histories": 8, "fixpoint.schema_compared": 20}
 
 
-def same_schema_modulo_ageing(before: dict[str, Any], after: dict[str, Any]) -> bool:
+def same_schema_modulo_ageing(before: dict[str, Any], after: dict[str, Any], pkts: dict[str, str] | None = None) -> bool:
     """Equal, or differing only by devices that dropped out of a presence-based orphan list.
 
     The fresh gateway needs some hundred milliseconds of (virtual) time to start up and restore, so its
@@ -75,6 +75,13 @@ def same_schema_modulo_ageing(before: dict[str, Any], after: dict[str, Any]) -> 
             drop[k] = set(v) - set(after.get(k, []))
         elif isinstance(v, dict) and "orphans" in v:
             drop[k] = set(v["orphans"]) - set((after.get(k) or {}).get("orphans", []))
+    if pkts is not None:
+        # only a device that the snapshot shows *present* (an I / RP of its own that can have aged meanwhile) may
+        # drop out: one listed without any such packet cannot come back from the snapshot at all
+        heard = {ln.split(" ")[-6] if len(ln.split(" ")) > 6 else "" for ln in pkts.values() if ln[4:6] in (" I", "RP")}
+        heard |= {ln.split(" ")[-4] for ln in pkts.values() if ln[4:6] in (" I", "RP") and len(ln.split(" ")) > 6 and ln.split(" ")[-6][:2] == "--"}
+        for k in drop:
+            drop[k] = {d for d in drop[k] if d in heard}
     return strip(before, drop) == strip(after, {})
 
 
@@ -331,7 +338,7 @@ async def check_snapshot(loop, ctx, rig: Rig, include_expired: bool, meta: dict[
                 "snapshot -> fresh gateway -> snapshot does not give back the same packets",
                 {"diff": d, "include_expired": include_expired, "stack": rig.stack, "history": meta},
             )
-        if judge_schema and not same_schema_modulo_ageing(schema_a, schema_b):
+        if judge_schema and not same_schema_modulo_ageing(schema_a, schema_b, pkts_a):
             ctx.violate(
                 "C16|fixpoint|schema-differs",
                 "snapshot -> fresh gateway -> snapshot does not give back the same schema (eavesdropping off)",
